@@ -24,6 +24,8 @@ META = {
 def run(ctx):
     meths = _grid.grid_methods(ctx)
     _grid.index_pairing(ctx, meths, 'C15.D1')
+    # a refused store must not leave a row in the list that the index does not know (shared with C14.D2)
+    _grid.refuse_before_write(ctx, meths, 'C15.D1')
     _grid.reindex_shape(ctx, meths, 'C15.D1')
     _grid.key_normaliser(ctx, meths, 'C15.D2')
     _grid.nullness(ctx, meths, 'C15.D3')
